@@ -226,7 +226,10 @@ def source(case):
     for it in doc['items']:
         k = it[0]
         if k == 'sec':
-            s = '\\%s%s{%s}' % (it[1], '*' if it[2] else '', ' '.join('zt%dx' % n for n in it[3]))
+            words = ['zt%dx' % n for n in it[3]]
+            if len(it) > 5 and it[5] == '~' and len(words) > 1:      # a literal no-break space (U+00A0) between the first two title words
+                words = [words[0] + '\u00a0' + words[1]] + words[2:]
+            s = '\\%s%s{%s}' % (it[1], '*' if it[2] else '', ' '.join(words))
             if it[4]:
                 s += '\\label{%s}' % it[4]
             out.append(s)
